@@ -34,7 +34,9 @@ MkBin(c, k, kind, start) ==
          (CASE kind = "w0" -> 0 [] kind = "wlow" -> WU \div 4 [] OTHER -> WU),
          (CASE kind = "null" -> (-20) * LU [] kind = "l15" -> LowCut [] kind = "l15m" -> LowCut - 1 [] OTHER -> l0),
          (CASE kind = "null" -> 0 [] OTHER -> d0)>>
-MkChrom(c, n, g, z, kinds) == [k \in 1..n |-> MkBin(c, k, kinds[k], StartOf(k, g, z, 10 * c))]
+(* every chromosome starts at the same coordinate: bins of different chromosomes overlap in coordinates, so a *)
+(* bin -> segment match that forgets the chromosome shows in weight / depth / gene                           *)
+MkChrom(c, n, g, z, kinds) == [k \in 1..n |-> MkBin(c, k, kinds[k], StartOf(k, g, z, 10))]
 GapPos(n) == IF WithGap THEN {0} \cup 2..n ELSE {0}
 ChromTables(c) == UNION {UNION {{MkChrom(c, n, g, z, kinds) : z \in GapSizes, kinds \in [1..n -> Kinds]}
                                 : g \in GapPos(n)} : n \in 1..MaxBinsPer[c]}
